@@ -6,11 +6,6 @@ abbrev Peer := Nat × String × Addr
 
 def peerKey (p : Peer) : Option Bytes := decodePk p.2.1
 
-def pidxFold (acc : List (Bytes × Nat)) (peers : List Peer) : List (Bytes × Nat) :=
-  peers.foldl (fun acc p => match decodePk p.2.1 with
-    | some b => alPut acc b p.1
-    | none => acc) acc
-
 theorem pidxFold_spec : ∀ (peers : List Peer) (acc : List (Bytes × Nat)),
     (∀ p ∈ peers, (peerKey p).isSome) → (peers.map peerKey).Nodup →
     (∀ p ∈ peers, ∀ kb, peerKey p = some kb → alGet (pidxFold acc peers) kb = some p.1) ∧
@@ -66,6 +61,18 @@ theorem dupIdx_false_nodup : ∀ (peers : List Peer), dupIdx peers = false → (
     obtain ⟨q, hq, e⟩ := List.mem_map.1 hm
     exact h.1 q hq e
 
+theorem eq_of_nodup_map {α β : Type} (f : α → β) : ∀ (l : List α), (l.map f).Nodup → ∀ a ∈ l, ∀ b ∈ l, f a = f b → a = b
+  | [], _, a, ha, _, _, _ => by cases ha
+  | x :: t, h, a, ha, b, hb, e => by
+    have hc := List.nodup_cons.1 (show (f x :: t.map f).Nodup from h)
+    rcases List.mem_cons.1 ha with rfl | ha'
+    · rcases List.mem_cons.1 hb with rfl | hb'
+      · rfl
+      · exact absurd (e ▸ List.mem_map_of_mem hb') hc.1
+    · rcases List.mem_cons.1 hb with rfl | hb'
+      · exact absurd (e ▸ List.mem_map_of_mem ha') hc.1
+      · exact eq_of_nodup_map f t hc.2 a ha' b hb' e
+
 theorem activeCount_all_cons (peers : List Peer) :
     activeCount (peers.map (fun p => ({ index := p.1, pk := p.2.1, addr := p.2.2, status := Status.cons } : PeerItem))) = peers.length := by
   unfold activeCount
@@ -103,9 +110,7 @@ theorem init_establishes (s : State) (mbcv : Nat) (peers : List Peer) (o : Out)
           | none => simp [hd] at this
           | some b => rfl
         obtain ⟨hget, hother⟩ := pidxFold_spec peers [] hvalid hkeys
-        have hfold : (peers.foldl (fun acc p => match decodePk p.2.1 with
-            | some b => alPut acc b p.1
-            | none => acc) s.pidx) = pidxFold [] peers := by rw [hp]; rfl
+        have hfold : pidxFold s.pidx peers = pidxFold [] peers := by rw [hp]
         refine ⟨⟨{ view := 1, height := s.height }, peers.map (fun p => ({ index := p.1, pk := p.2.1, addr := p.2.2, status := Status.cons } : PeerItem)), ?_, ?_, ?_⟩, ?_⟩
         · simp only [curPool, alGet_put_self]
         · refine ⟨by rw [activeCount_all_cons]; exact h4, ?_, ?_, ?_⟩
@@ -127,14 +132,14 @@ theorem init_establishes (s : State) (mbcv : Nat) (peers : List Peer) (o : Out)
           · intro k1 k2 i h1 h2
             obtain ⟨p1, hp1, hk1, hi1⟩ := hmem k1 i h1
             obtain ⟨p2, hp2, hk2, hi2⟩ := hmem k2 i h2
-            have : p1 = p2 := List.inj_on_of_nodup_map (dupIdx_false_nodup peers hdi) hp1 hp2 (by rw [hi1, hi2])
+            have : p1 = p2 := eq_of_nodup_map (·.1) peers (dupIdx_false_nodup peers hdi) p1 hp1 p2 hp2 (by rw [hi1, hi2])
             subst this
             rw [hk1] at hk2; injection hk2
           · intro k i hk
             obtain ⟨p, hpm, _, hi⟩ := hmem k i hk
             refine ⟨_, rfl, ?_⟩
             have := (maxFold_ge peers 0).2 p hpm
-            omega
+            exact Nat.lt_succ_of_le (hi ▸ this)
         · intro kb pk hg; simp only [ha] at hg; cases hg
 
 end Poly.Model.Gov
